@@ -27,6 +27,10 @@ using L_V7 = List<D<P, sz, 8>, D<V, Trk>, D<P, u8>>;
 // an over-aligned VaryingSize parameter in the middle: padding in front of the span even when it is empty
 using L_V8 = List<D<P, sz, 8>, D<V, f32, 16>, D<P, u8>>;
 using L_V9 = List<D<P, u8>, D<V, Trk, 8>, D<P, u8>>;
+// non-trivial copy constructor only (trivial move and destructor)
+using L_P5 = List<D<P, Cpy>, D<P, u8>>;
+using L_F6 = List<D<F, Cpy>, D<P, u32>>;
+using L_V10 = List<D<P, sz, 8>, D<V, Cpy>, D<P, Cpy>>;
 // mixed
 using L_M1 = List<D<F, f32, 16>, D<P, u32>, D<P, sz, 8>, D<V, f32, 8>>;
 using L_M2 = List<D<F, Trk>, D<P, u8>, D<V, Trk>>;
